@@ -352,6 +352,11 @@ def render_decl(k, line, rng=None, name=None):
             zeros = ", ".join(["%s{}" % T(g[0]) for g in p['groups']] + (["err"] if p['e'] else []))
             if p['e']:
                 body.append('\tif err := rt.Fail("%s"); err != nil {\n\t\treturn %s\n\t}' % (pid, zeros))
+                # a fallible provider that is handed the context honours it, as a dialer would
+                for j, t in enumerate(p['req']):
+                    if t == 0:
+                        body.append('\tif err := a%d.Err(); err != nil {\n\t\trt.Exit("%s")\n\t\treturn %s\n\t}' % (j, pid, zeros))
+                        break
             body.append('\targs := %s' % argterms)
             vals = [value_lit(g[0], '"P%d.%d(" + args + ")"' % (i, gi)) for gi, g in enumerate(p['groups'])]
             body.append('\trt.Exit("%s")' % pid)
